@@ -69,6 +69,8 @@ def _semantic_symmetry(repo, dl_a, dl_b):
             if isinstance(f, tuple) and f and f[0] == "param" and vals[-1] == "?other?":
                 vals.append("?other2?")      # two parameters may be compared with each other: two distinct values outside every literal set
             doms[f] = vals
+        from .fam_d2 import drop_derived_features
+        doms = drop_derived_features((ta, tb), doms)
         order = sorted(doms, key=lambda f: len(repr(f)))
         size = 1
         for f in order:
